@@ -73,6 +73,16 @@ func genDoc(t *rapid.T) *Doc {
 		// inside a mapping (not its first byte: call sites are moved back by one), or far below all of them
 		if len(d.Maps) > 0 && rapid.IntRange(0, 4).Draw(t, label+"in") != 0 {
 			m := d.Maps[rapid.IntRange(0, len(d.Maps)-1).Draw(t, label+"m")]
+			if rapid.IntRange(0, 3).Draw(t, label+"edge") == 0 {
+				// the borders of the mapping, before and after the call-site adjustment
+				// (an address within Offset bytes below a mapping that has a non-zero offset is claimed by a
+				// documented work-around for split mappings: the lower border is only drawn for offset 0)
+				w := rapid.IntRange(0, 4).Draw(t, label+"which")
+				if m.Offset != 0 && w < 2 {
+					w += 2
+				}
+				return []uint64{m.Start, m.Start + 1, m.Limit - 1, m.Limit, m.Limit + 1}[w]
+			}
 			return m.Start + 2 + uint64(rapid.IntRange(0, 0xff0).Draw(t, label+"o"))
 		}
 		return uint64(rapid.IntRange(0x1000, 0x8000).Draw(t, label+"abs"))*2 + 2
@@ -728,7 +738,7 @@ func clip(b []byte) string {
 }
 
 func TestPropLegacy(t *testing.T) {
-	vk.Main(t, vk.Spec[Doc]{ID: "C14", Facet: "legacy", Quick: 6000, Thorough: 40000, Gen: genDoc, Check: check,
+	vk.Main(t, vk.Spec[Doc]{ID: "C14", Facet: "legacy", Quick: 20000, Thorough: 80000, Gen: genDoc, Check: check,
 		Pretty: func(d *Doc) any { return map[string]any{"kind": d.Kind, "doc": d, "text": clip(d.Print())} },
 		Rule:   "a model of each legacy format (heap, heap_v2, heapz_v2, heapprofile, growthz, fragmentationz with and without allocation columns; Go count; contentionz/mutex/contention with optional cycles/second, sampling period, ms since reset; threadz incl. 'same as previous thread'; binary CPU in 32/64 bit x little/big endian with an optional shared signal-handler frame or duplicated leaf; Java heapz/contentionz with location table) is printed the way a real writer would (comment and blank lines, /proc/maps or brief memory map with non-executable entries) and parsed; oracle: one sample per record in order, addresses with the documented call-site adjustment, values raw / x period / unsampled by 1/(1-exp(-size/rate)) computed independently (+-1), block-size label, types, units, period, duration, mappings by containment, built-in drop_frames, and write/parse round trip; non-trivial = >=2 records sharing an address"})
 }
